@@ -99,35 +99,34 @@ theorem insert_loops_total (null : α) (sh1 : Shp) (rest : List (KeyState α)) (
     (acc : KeyState α) : ∃ r, foldSliceK null sh1 k acc rest = .ok r :=
   Total.foldSliceK_ok null sh1 rest k acc
 
-/-- merging valid inputs along the slice axis succeeds (consistent shape; a vector axis has ≥ 2
-    components — the excluded case is finding F22) -/
+/-- merging valid inputs along the slice axis succeeds (any consistent shape; with the F22 repair
+    also when the vector axis has a single component) -/
 theorem merge_slice_total (null : α) (sh1 : Shp) (hc1 : Consistent sh1)
-    (hv : sh1.hasVector = true → 2 ≤ sh1.V)
     (a : KeyState α) (rest : List (KeyState α))
     (hin : ∀ b, b ∈ a :: rest → ValidK { sh1 with S := 1 } b) :
     ∃ r, mergeSliceK null sh1 (a :: rest) = .ok r :=
-  Total.mergeSliceK_ok null sh1 hc1 hv a rest hin
+  Total.mergeSliceK_ok null sh1 hc1 a rest hin
 
-/-- merging two or more valid 3-D extensions along time succeeds -/
+/-- merging valid 3-D extensions along time succeeds -/
 theorem merge_time_total (null : α) (sh1 osh : Shp)
     (hS : 0 < sh1.S) (hsl : sh1.hasSlice = true) (nd4 : sh1.nd = 4) (v1 : sh1.V = 1)
     (hvec : sh1.hasVector = false)
     (ond : osh.nd = 3) (oS : osh.S = sh1.S) (oT : osh.T = 1) (oV : osh.V = 1)
     (ohsl : osh.hasSlice = true)
-    (a : KeyState α) (rest : List (KeyState α)) (hrest : rest ≠ [])
+    (a : KeyState α) (rest : List (KeyState α))
     (hin : ∀ b, b ∈ a :: rest → ValidK osh b) :
     ∃ r, mergeTimeK null sh1 osh (a :: rest) = .ok r :=
-  Total.mergeTimeK_ok null sh1 osh hS hsl nd4 v1 hvec ond oS oT oV ohsl a rest hrest hin
+  Total.mergeTimeK_ok null sh1 osh hS hsl nd4 v1 hvec ond oS oT oV ohsl a rest hin
 
-/-- merging two or more valid 3-D / 4-D extensions along the vector axis succeeds -/
+/-- merging valid 3-D / 4-D extensions along the vector axis succeeds -/
 theorem merge_vector_total (null : α) (sh1 osh : Shp)
     (hS : 0 < sh1.S) (hT : 0 < sh1.T) (hsl : sh1.hasSlice = true) (nd5 : sh1.nd = 5)
     (hvec : sh1.hasVector = true) (htime : sh1.hasTime = true → sh1.T ≠ 1)
     (ohsl : osh.hasSlice = true) (oS : osh.S = sh1.S) (oT : osh.T = sh1.T) (oV : osh.V = 1)
     (ond : (osh.nd = 3 ∧ sh1.T = 1) ∨ (osh.nd = 4 ∧ sh1.T ≠ 1))
-    (a : KeyState α) (rest : List (KeyState α)) (hrest : rest ≠ [])
+    (a : KeyState α) (rest : List (KeyState α))
     (hin : ∀ b, b ∈ a :: rest → ValidK osh b) :
     ∃ r, mergeVecK null sh1 osh (a :: rest) = .ok r :=
-  Total.mergeVecK_ok null sh1 osh hS hT hsl nd5 hvec htime ohsl oS oT oV ond a rest hrest hin
+  Total.mergeVecK_ok null sh1 osh hS hT hsl nd5 hvec htime ohsl oS oT oV ond a rest hin
 
 end C03
